@@ -35,7 +35,9 @@ FILES = {
     "validate_wasm.go": ["C20"],
     "derive_rfc4226_wasm.go": ["C20"],
 }
-ALWAYS = {"lib": ["C10", "C12"], "rest": [], "wasm": []}
+ALWAYS = {"lib": [], "rest": [], "wasm": []}   # C10/C12 as well: MSW_ALWAYS=1
+if os.environ.get("MSW_ALWAYS"):
+    ALWAYS["lib"] = ["C10", "C12"]
 
 SWAPS = [(" < ", " <= "), (" <= ", " < "), (" > ", " >= "), (" >= ", " > "), (" == ", " != "), (" != ", " == "),
          (" + ", " - "), (" - ", " + "), (" * ", " / "), (" / ", " * "), (" % ", " / "), (" << ", " >> "), (" >> ", " << "),
@@ -238,6 +240,10 @@ def do_check(j, ids):
     if os.path.exists(rp) and not ids:
         done = {l.split("\t")[0] for l in open(rp)}
     todo = [index[i] for i in surv if i not in done]
+    order = {f: k for k, f in enumerate(["validate.go", "decoder.go", "derive.go", "derive_rfc4226.go", "derive_rfc6287.go", "hotp.go", "totp.go", "ocra.go",
+                                         "utils.go", "otp.go", "internal/app/api/handlers.go", "internal/app/api/dto.go", "internal/app/api/common.go",
+                                         "validate_wasm.go", "derive_rfc4226_wasm.go", "wasm/main.go", "suite_rfc6287.go"])}
+    todo.sort(key=lambda m: (order.get(m["file"], 99), m["id"]))
     print("checking", len(todo), "survivors")
     pool_map(check_one, todo, j)
 
